@@ -405,6 +405,9 @@ pub fn run(ctx: &Ctx) -> i32 {
       Job::Class(d) => {
         let mut cells = class_cells(*d);
         cells.extend(carry_cells(*d, false));
+        if *d == 20 {
+          cells.extend(halfword_sweep_cells(*d).into_iter().step_by(if ctx.quick() { 64 } else { 8 }));
+        }
         for &h in &cells {
           part.stratum("border-class-cells", 1, 150);
           if let Some(v) = check_cell(*d, h, &mut part) {
